@@ -7,8 +7,10 @@ CONSTANTS
   K = 0
   PreSig = FALSE
   DropStreamEarly = TRUE
+  Tasks = 1
+  Spurious = FALSE
   DrainDone = "all"
-  RegisterDone = TRUE
+  RegisterDone = "always"
   EndEarly = 0
 INVARIANTS TypeOK Inv_C01 Inv_C02 Inv_C03 Inv_C05 Inv_C08
 CHECK_DEADLOCK FALSE
